@@ -142,6 +142,28 @@ add("C17", "I", "exploration",
     "Trusted: the measured DAG (re-measured under strace in history 0), a crash modelled as completion followed by truncation to b bytes.",
     "multi-stage file pipeline under seeded order/crash/dirty-state faults; byte comparison + table audit", "DESIGN.md 5/C17")
 
+add("C08", "P0", "exploration",
+    "Workload-driven reference-model check: engine P0 runs the real code up to compute_parameters_first_round for seeded country and "
+    "world jobs (all option families, horizons, overrides) with per-job randomised model-time timers (DELAY entries, shut-off months); "
+    "histories contain scaling twins (one baseline column x factor through the documented override route), delay twins, calendar "
+    "one-hot and year-block probes. Oracle: a reference calendar/timer model written from the documentation (May start, year blocks "
+    "8,12,...,12+4, seasonality rotation, harvest-before-May rule, relocation exponent, area ramp, fish, grass, demand schedules, "
+    "seaweed area and growth factors, initial stored food) at 1e-12; SCP and cellulosic sugar structurally (delay, monotone ramp, cap, "
+    "exact scaling, delay shift). The simulator contributes workload and timer randomisation only.",
+    "Trusted: the reference calendar model in sim/checks/c08.py (residual vs the code <= 1.1e-15 where it agrees). The 'generated vectors "
+    "via direct calls' quantifier is not covered. Known findings F05 (SCP double delay, pinned by a shipped test) and F06 (grass year of "
+    "the last four months of a short horizon); one defect (world grass unit) repaired by a fix: commit.",
+    "reference calendar/timer model riding on seeded runs with randomised model-time timers and paired jobs", "DESIGN.md 5/C08")
+add("C09", "P0", "exploration",
+    "Same engine; OutdoorCrops is observed between calculate_monthly_production and set_crop_production_minus_greenhouse_area. Oracle: "
+    "production = grown x (1 - greenhouse fraction) x (1 - distribution waste); greenhouse fraction zero until its delay (documented ramp: "
+    "delay + 5 months, 36 months linear, cap), non-decreasing, <= configured share; relocated / expanded scenarios never lower any month "
+    "(paired jobs in one history); no quantisation (floating dtype, not on an integer lattice when the grown amount is not), probed on "
+    "small countries and scaled-down baselines. Workload-driven; the simulator contributes pairing and timer randomisation.",
+    "Trusted: the land-accounting identity in sim/checks/c09.py. Two genuine defects (integer truncation with relocated crops, greenhouse "
+    "land counted twice without relocation) were repaired by fix: commits.",
+    "land-accounting identity and paired-job dominance monitors on seeded runs", "DESIGN.md 5/C09")
+
 NOT_APPLICABLE = [
     {"property_id": "C10", "reason": "pure function of (value, unit names, four settings); nothing to schedule, fail or interleave - property-based enumeration is the right tool, outside this technique family (DESIGN.md 6)"},
     {"property_id": "C12", "reason": "relates the optimum of one LP to optima of perturbed copies: counterfactual re-solves of a pure function, not behaviour under any schedule or fault (DESIGN.md 6)"},
@@ -171,6 +193,7 @@ def main():
             {"name": "H", "path": "sim/engine_h.py", "serves_properties": ["C06", "C07"], "kind_free_text": "real monthly herd state machine stepped under seeded feed/grass delivery faults, with a call recorder on feed_the_species"},
             {"name": "I", "path": "sim/engine_i.py", "serves_properties": ["C17"], "kind_free_text": "the 21 import scripts as real subprocesses on a scratch copy; order, crash/torn-output and dirty-directory faults"},
             {"name": "O", "path": "sim/engine_o.py", "serves_properties": ["C13"], "kind_free_text": "option-message fault enumeration against the real dispatcher/setters; pipeline stubbed after dispatch"},
+            {"name": "P0", "path": "sim/engine_p0.py", "serves_properties": ["C08", "C09"], "kind_free_text": "real code up to compute_parameters_first_round (no LP) with randomised model-time timers and paired jobs"},
             {"name": "P", "path": "sim/engine_p.py", "serves_properties": ["C01", "C02", "C03", "C04", "C05", "C14", "C16", "C18"], "kind_free_text": "real pipeline (dispatch, parameters, 3 LP rounds, extract/interpret/validate, herd simulator, PuLP+CBC) inside simulated clock / results FS / solver seam with fault injection"},
         ],
         "checks": [CHECKS[k] for k in sorted(CHECKS)],
